@@ -19,17 +19,21 @@ def OriginZ (Z : Prop) (o : Origin) : Prop :=
 the flat store holds -/
 def Loadable (Z : Prop) (st : Store Node) (Q : PageId) : Prop :=
   ∃ pg o, ps.get Q = some (pg, o) ∧ OriginZ Z o ∧ pg.nodes.length = 126 ∧
-    ∀ q, q ≠ [] → q.length ≤ 256 → specPage q = Q → pg.nodes.getD (specIndex q) H.term = st q
+    (∀ q, q ≠ [] → q.length ≤ 256 → specPage q = Q → pg.nodes.getD (specIndex q) H.term = st q) ∧
+    originOK ps Q = true
 
 /-- what the simulation needs of a page `build_stack` pushes -/
 def PushedOK (Z : Prop) (st : Store Node) (sp : StackPage Node) : Prop :=
   PageMatches H sp st ∧ CountersOK sp ∧ DiffOK H ps sp ∧ sp.childrenLeaves = none ∧
-    (Z → sp.prevChildrenLeaves = some 0 ∧ sp.pageLeaves = some 0)
+    (Z → sp.prevChildrenLeaves = some 0 ∧ sp.pageLeaves = some 0) ∧ (∀ ids, Acct ps ids sp)
 
 theorem pushed_new (Z : Prop) (st : Store Node) (cur : PageId) (pg : Page Node) (o : Origin)
     (hget : ps.get cur = some (pg, o)) (ho : OriginZ Z o) (hl126 : pg.nodes.length = 126)
-    (hm : ∀ q, q ≠ [] → q.length ≤ 256 → specPage q = cur → pg.nodes.getD (specIndex q) H.term = st q) :
+    (hm : ∀ q, q ≠ [] → q.length ≤ 256 → specPage q = cur → pg.nodes.getD (specIndex q) H.term = st q)
+    (hok : originOK ps cur = true) :
     PushedOK H ps Z st (StackPage.new cur pg PageDiff.empty o) := by
+  have hacct : ∀ ids, Acct ps ids (StackPage.new cur pg PageDiff.empty o) :=
+    fun ids => acct_new ps ids cur pg PageDiff.empty o hget hok
   have hdiff : ∀ o' : Origin, ps.get cur = some (pg, o') → DiffOK H ps (StackPage.new cur pg PageDiff.empty o') := by
     intro o' hg
     refine ⟨pg.nodes, Or.inr ⟨pg.elided, o', ?_⟩, ?_⟩
@@ -45,9 +49,9 @@ theorem pushed_new (Z : Prop) (st : Store Node) (cur : PageId) (pg : Page Node) 
     intro o'
     cases o' <;> exact ⟨hl126, fun q hq hql hqp => hm q hq hql hqp⟩
   rcases ho with hz | ⟨d, hd⟩
-  · exact ⟨hpm o, hcnt o, hdiff _ hget, hcl o, fun h => absurd h hz⟩
+  · exact ⟨hpm o, hcnt o, hdiff _ hget, hcl o, fun h => absurd h hz, hacct⟩
   · subst hd
-    exact ⟨hpm _, hcnt _, hdiff _ hget, rfl, fun _ => ⟨rfl, rfl⟩⟩
+    exact ⟨hpm _, hcnt _, hdiff _ hget, rfl, fun _ => ⟨rfl, rfl⟩, hacct⟩
 
 /-- the pages `build_stack` pushes below a target id `T` (a prefix of `cur`) -/
 theorem pushLoop_some (Z : Prop) (st : Store Node) (T : PageId) : ∀ (n : Nat) (cur : PageId), cur.length = T.length + n → T <+: cur →
@@ -66,7 +70,7 @@ theorem pushLoop_some (Z : Prop) (st : Store Node) (T : PageId) : ∀ (n : Nat) 
     intro cur hlen hpre hload
     have hne : cur ≠ T := by intro e; rw [e] at hlen; omega
     have hcne : cur ≠ [] := by intro e; rw [e] at hlen; simp at hlen
-    obtain ⟨pg, o, hget, ho, hl126, hm⟩ := hload cur (List.prefix_refl _) (by omega)
+    obtain ⟨pg, o, hget, ho, hl126, hm, hok⟩ := hload cur (List.prefix_refl _) (by omega)
     have hpar : parentPageId cur = cur.dropLast := by unfold parentPageId; rw [if_neg hcne]
     have hdl : cur.dropLast.length = T.length + n := by rw [List.length_dropLast]; omega
     have hpre' : T <+: cur.dropLast := by
@@ -91,7 +95,7 @@ theorem pushLoop_some (Z : Prop) (st : Store Node) (T : PageId) : ∀ (n : Nat) 
     · intro sp hsp
       rcases List.mem_cons.mp hsp with e | hsp'
       · rw [e]
-        exact pushed_new H ps Z st cur pg o hget ho hl126 hm
+        exact pushed_new H ps Z st cur pg o hget ho hl126 hm hok
       · exact hprops sp hsp'
 
 /-- the pages `build_stack` pushes without a target: down to the root page -/
@@ -105,7 +109,7 @@ theorem pushLoop_none (Z : Prop) (st : Store Node) : ∀ (n : Nat) (cur : PageId
     intro cur hlen hload
     have hcur : cur = [] := List.eq_nil_of_length_eq_zero hlen
     subst hcur
-    obtain ⟨pg, o, hget, ho, hl126, hm⟩ := hload [] (List.prefix_refl _)
+    obtain ⟨pg, o, hget, ho, hl126, hm, hok⟩ := hload [] (List.prefix_refl _)
     refine ⟨[StackPage.new [] pg PageDiff.empty o], ?_, by simp [idsDown, new_pageId], ?_⟩
     · unfold pushLoop
       rw [if_neg (by simp), hget]
@@ -113,11 +117,11 @@ theorem pushLoop_none (Z : Prop) (st : Store Node) : ∀ (n : Nat) (cur : PageId
     · intro sp hsp
       rw [List.mem_singleton] at hsp
       rw [hsp]
-      exact pushed_new H ps Z st [] pg o hget ho hl126 hm
+      exact pushed_new H ps Z st [] pg o hget ho hl126 hm hok
   | succ n ih =>
     intro cur hlen hload
     have hcne : cur ≠ [] := by intro e; rw [e] at hlen; simp at hlen
-    obtain ⟨pg, o, hget, ho, hl126, hm⟩ := hload cur (List.prefix_refl _)
+    obtain ⟨pg, o, hget, ho, hl126, hm, hok⟩ := hload cur (List.prefix_refl _)
     have hpar : parentPageId cur = cur.dropLast := by unfold parentPageId; rw [if_neg hcne]
     have hdl : cur.dropLast.length = n := by rw [List.length_dropLast]; omega
     obtain ⟨l, hl, hids, hprops⟩ := ih cur.dropLast hdl (by
@@ -133,7 +137,7 @@ theorem pushLoop_none (Z : Prop) (st : Store Node) : ∀ (n : Nat) (cur : PageId
     · intro sp hsp
       rcases List.mem_cons.mp hsp with e | hsp'
       · rw [e]
-        exact pushed_new H ps Z st cur pg o hget ho hl126 hm
+        exact pushed_new H ps Z st cur pg o hget ho hl126 hm hok
       · exact hprops sp hsp'
 
 /-! ## chains of `idsDown` -/
@@ -315,7 +319,7 @@ theorem sim_buildStack {w : Walker Node} {a : TW Node} (h : Sim H ps w a) (posit
       refine ⟨h1, ?_⟩
       intro sp hsp
       rcases List.mem_append.mp hsp with h3 | h3
-      · exact (hprops sp h3).2.2.2.2 hr
+      · exact (hprops sp h3).2.2.2.2.1 hr
       · exact h2 sp h3
     · intro hr
       have hacc := h.recon.acct hr
@@ -323,7 +327,14 @@ theorem sim_buildStack {w : Walker Node} {a : TW Node} (h : Sim H ps w a) (posit
       show ((l ++ w.stack).map clOf).sum ≤ (w.outputPages.map (outLeaves H)).sum
       rw [List.map_append, List.sum_append, hz]
       omega
-  refine ⟨hpw, rfl, h.root, ?_, ?_, ?_, ?_, ?_, hrecon, h.cpr, h.outs, h.nofix, ?_⟩
+  refine ⟨hpw, rfl, h.root, ?_, ?_, ?_, ?_, ?_, hrecon, h.cpr, h.outs, h.nofix, ?_, ?_,
+    h.named.push (fun sp hsp => List.mem_append_right _ hsp) rfl rfl rfl⟩
+  rotate_right
+  · intro sp hsp
+    have hsp' : sp ∈ l ++ w.stack := hsp
+    rcases List.mem_append.mp hsp' with h1 | h1
+    · exact (hprops sp h1).2.2.2.2.2 _
+    · exact h.acct sp h1
   · show l ++ w.stack = [] ↔ position.path.length ≤ 6 * k0 w.parentPage
     constructor
     · intro e; exact absurd e hnonempty
@@ -358,10 +369,12 @@ theorem sim_buildStack_root {w : Walker Node} {a : TW Node} (h : Sim H ps w a) (
   rw [hst]
   simp only [List.length_nil, Walker.popAll]
   refine ⟨_, rfl, ?_, ⟨hpar.symm, rfl, rfl, rfl, rfl⟩, rfl⟩
-  refine ⟨hpw, hnil, h.root, ?_, ?_, ?_, ?_, ?_, h.recon.cast H rfl rfl rfl (by rw [hst]) rfl, h.cpr, h.outs, h.nofix, ?_⟩
+  refine ⟨hpw, hnil, h.root, ?_, ?_, ?_, ?_, ?_, h.recon.cast H rfl rfl rfl (by rw [hst]) rfl, h.cpr, h.outs, h.nofix, ?_, ?_,
+    h.named.cast (by rw [hst]) rfl rfl rfl⟩
   · simp
   · intro sp rest e; cases e
   · trivial
+  · intro sp hsp; cases hsp
   · intro sp hsp; cases hsp
   · intro sp hsp; cases hsp
   · intro sp hsp; cases hsp
@@ -372,13 +385,13 @@ theorem sim_replaceTerminal (hs : H.Sound) (hfresh : ∀ P, (ps.fresh P).length 
     (hk : KeysOK S') {w : Walker Node} {a : TW Node} (h : Sim H ps w a)
     (hscope : (a.pos = [] ∧ w.parentPage = none) ∨ 6 * k0 w.parentPage < a.pos.length)
     (hterm : w.reconstruction = false → H.kind a.cur ≠ .internal)
-    (Lfin : List (PageId × Store Node))
-    (hfin : w.reconstruction = true → SmallBy H ps Lfin ∧
+    (hclean : ∀ q, a.pos <+: q → q.length % 6 = 0 → q.length < 256 → fullSum ps (sextetsOf q) = 0)
+    (Lfin : List (PageId × Store Node)) (hnd : (Lfin.map (·.1)).Nodup)
+    (hfin : (w.reconstruction = true → SmallBy H ps Lfin) ∧
       (a.replaceTerminal H (cfgOf H ps w.parentPage) (sub S' a.pos)).log <+: Lfin) :
-    (∃ w', w.replaceTerminal H ps (sub S' a.pos) = .ok w' ∧
+    ∃ w', w.replaceTerminal H ps (sub S' a.pos) = .ok w' ∧
       Sim H ps w' (a.replaceTerminal H (cfgOf H ps w.parentPage) (sub S' a.pos)) ∧ Same w w' ∧
-      w'.childPageRoots = w.childPageRoots) ∨
-    (w.reconstruction = false ∧ w.replaceTerminal H ps (sub S' a.pos) = .panic GUARD) := by
+      w'.childPageRoots = w.childPageRoots := by
   have hdep := pos_depth_pos h.wf h.pos
   have hlen := sim_len H ps h
   -- the node at the position
@@ -427,13 +440,19 @@ theorem sim_replaceTerminal (hs : H.Sound) (hfresh : ∀ P, (ps.fresh P).length 
           rw [this]; rfl)
         hsc' (256 - a.pos.length) a.pos none a.pos a rfl (List.prefix_refl _) hlen he (List.prefix_refl _) ⟨rfl, rfl⟩
       simpa using this
-  rcases sim_visitAll H ps hs hfresh a.pos.length Lfin _
+  have hallq : AllQ H (cfgOf H ps w.parentPage) (VisitFresh ps) a.pos.length a
+      (if sub S' a.pos = [] then [.terminator]
+       else treeEv H a.pos.length (256 - a.pos.length) 0 (sub S' a.pos) none) := by
+    by_cases he : sub S' a.pos = []
+    · rw [if_pos he]
+      exact ⟨trivial, trivial⟩
+    · rw [if_neg he]
+      have := tw_visit_tree_fresh H ps hs hk (cfgOf H ps w.parentPage) a.pos hclean
+        (256 - a.pos.length) a.pos none a.pos a rfl (List.prefix_refl _) hlen he (List.prefix_refl _) ⟨rfl, rfl⟩
+      simpa using this
+  obtain ⟨w2, hw2, hs2, hsame2, hcpr2⟩ := sim_visitAll H ps hs hfresh a.pos.length Lfin hnd _
     ({ w with prevNode := some a.cur } : Walker Node) a (sim_other_fields H ps h w.siblingStack (some a.cur) w.lastPosition)
-    hsafe hfin with ⟨w2, hw2, hs2, hsame2, hcpr2⟩ | ⟨hnr, hp⟩
-  case inr =>
-    right
-    refine ⟨hnr, ?_⟩
-    rw [hp]
+    hsafe hallq hfin
   rw [hw2]
   simp only
   -- the position is back where it started
@@ -452,7 +471,7 @@ theorem sim_replaceTerminal (hs : H.Sound) (hfresh : ∀ P, (ps.fresh P).length 
     have hst2 : w2.stack = [] := hs2.stackE.mpr (by rw [hpos2, hn]; simp)
     rw [if_neg (by simp [hroot2])]
     rw [if_pos (by rw [hst2]; rfl)]
-    exact Or.inl ⟨w2, rfl, hs2, hsame, hcpr2⟩
+    exact ⟨w2, rfl, hs2, hsame, hcpr2⟩
   · have hne := sim_pos_ne (w := w) hd
     have hroot2 : ¬ w2.position.isRoot = true := by
       unfold Pos.isRoot; rw [hdep2, hpos2]; simp; exact hne
@@ -467,6 +486,6 @@ theorem sim_replaceTerminal (hs : H.Sound) (hfresh : ∀ P, (ps.fresh P).length 
     rw [pageId_eq w2.position hs2.wf hd2]
     simp only
     rw [if_pos (by rw [htop2, hs2.pos])]
-    exact Or.inl ⟨w2, rfl, hs2, hsame, hcpr2⟩
+    exact ⟨w2, rfl, hs2, hsame, hcpr2⟩
 
 end Nomt.Walker.G
